@@ -185,6 +185,9 @@ func renamedLocal(fn *ssa.Function, name string) string {
 		return ""
 	}
 	base := loadBaseNames()[baseKey(fn)]
+	if os.Getenv("GVC_TRACE_RETARGET") != "" {
+		fmt.Fprintf(os.Stderr, "renamedLocal %s %s base=%v ren=%v\n", baseKey(fn), name, base != nil, retargetInputs[fn])
+	}
 	if base == nil {
 		return ""
 	}
@@ -195,6 +198,19 @@ func renamedLocal(fn *ssa.Function, name string) string {
 	cur := currentNames(fn)
 	if _, still := cur[name]; still {
 		return ""
+	}
+	retargetMu.Lock()
+	in := retargetInputs[fn][name]
+	retargetMu.Unlock()
+	if in != "" {
+		return in
+	}
+	for p := fn.Parent(); p != nil; p = p.Parent() {
+		// a variable of an enclosing function that this closure merely no longer captures was not renamed
+		// (a renamed captured variable is renamed in the enclosing function as well)
+		if _, ok := currentNames(p)[name]; ok {
+			return ""
+		}
 	}
 	var cands []string
 	for n, d := range cur {
@@ -672,6 +688,8 @@ func movedCallResultType(fn *ssa.Function, name string) types.Type {
 var (
 	retargetMu sync.Mutex
 	retargeted = map[*ssa.Function]string{} // current function -> the recorded name its contract is written for
+	retargetInputs = map[*ssa.Function]map[string]string{} // ... and its inputs that were renamed on the way
+	inputRen       = map[*ssa.Function]map[string]string{}
 )
 
 func baseKey(fn *ssa.Function) string {
@@ -736,22 +754,18 @@ func retargetFunc(P *Program, name string) *ssa.Function {
 			continue
 		}
 		cur := funcNameTable(fn)
-		base := inputsAligned(base, cur)
 		if os.Getenv("GVC_TRACE_RETARGET") != "" {
 			fmt.Fprintf(os.Stderr, "retarget %s: candidate %s %v\n", name, n, cur)
 		}
-		if len(cur) != len(base) {
+		if sameTables(inputsAligned(base, cur), cur) {
+			cands = append(cands, fn)
 			continue
 		}
-		same := true
-		for k, v := range base {
-			if cur[k] != v {
-				same = false
-				break
-			}
-		}
-		if same {
+		// the inputs may have been given new names on the way (a captured `creator` that is now the
+		// parameter `address`): the tables must coincide under one renaming of the inputs
+		if ren := inputRenaming(base, cur); ren != nil {
 			cands = append(cands, fn)
+			inputRen[fn] = ren
 		}
 	}
 	if len(cands) != 1 {
@@ -759,8 +773,87 @@ func retargetFunc(P *Program, name string) *ssa.Function {
 	}
 	retargetMu.Lock()
 	retargeted[cands[0]] = name
+	if ren := inputRen[cands[0]]; ren != nil {
+		retargetInputs[cands[0]] = ren
+	}
 	retargetMu.Unlock()
 	return cands[0]
+}
+
+func sameTables(a, b map[string]string) bool {
+	if len(a) != len(b) {
+		return false
+	}
+	for k, v := range a {
+		if b[k] != v {
+			return false
+		}
+	}
+	return true
+}
+
+// inputRenaming: recorded input name -> current input name, when the recorded table and the current one
+// coincide under exactly one renaming of those inputs whose names differ.
+func inputRenaming(base, cur map[string]string) map[string]string {
+	isInput := func(d string) bool {
+		if parts := strings.Split(d, " | "); len(parts) == 2 && parts[1] == "load("+parts[0]+")" {
+			d = parts[0]
+		}
+		if strings.ContainsAny(d, "(|, ") {
+			return false
+		}
+		return strings.HasPrefix(d, "param#") || strings.HasPrefix(d, "free#")
+	}
+	var bo, co []string
+	for n, d := range base {
+		if _, ok := cur[n]; !ok && isInput(d) {
+			bo = append(bo, n)
+		}
+	}
+	for n, d := range cur {
+		if _, ok := base[n]; !ok && isInput(d) {
+			co = append(co, n)
+		}
+	}
+	if len(bo) == 0 || len(bo) != len(co) || len(bo) > 4 {
+		return nil
+	}
+	sort.Strings(bo)
+	sort.Strings(co)
+	var found map[string]string
+	count := 0
+	var rec func(k int, used []bool, pick []int)
+	rec = func(k int, used []bool, pick []int) {
+		if k == len(bo) {
+			b2 := map[string]string{}
+			ren := map[string]string{}
+			for n, d := range base {
+				b2[n] = d
+			}
+			for i, j := range pick {
+				b2[co[j]] = base[bo[i]]
+				delete(b2, bo[i])
+				ren[bo[i]] = co[j]
+			}
+			if sameTables(inputsAligned(b2, cur), cur) {
+				count++
+				found = ren
+			}
+			return
+		}
+		for j := range co {
+			if !used[j] {
+				used[j] = true
+				rec(k+1, used, append(pick, j))
+				used[j] = false
+			}
+		}
+	}
+	rec(0, make([]bool, len(co)), nil)
+	if count == 1 {
+		return found
+	}
+	return nil
 }
 
 // movedLocal: a local of the recorded function under contract (base key `top`) that now lives in the
@@ -928,7 +1021,13 @@ func funcSig(fn *ssa.Function) string {
 	t := funcNameTable(fn)
 	var ks []string
 	for k, v := range t {
-		ks = append(ks, k+"="+v)
+		// the definitions of the locals, not their names: a function may be renamed together with its
+		// parameters and locals
+		if strings.HasPrefix(k, "__") {
+			ks = append(ks, k+"="+v)
+		} else {
+			ks = append(ks, v)
+		}
 	}
 	sort.Strings(ks)
 	var ps []string
